@@ -977,14 +977,18 @@ static void string_initializer(Token **rest, Token *tok, Initializer *init) {
 //
 // The above initializer sets x.c to 5.
 static void array_designator(Token **rest, Token *tok, Type *ty, int *begin, int *end) {
-  *begin = const_expr(&tok, tok->next);
-  if (*begin >= ty->array_len)
+  // Check the full-width value so that a negative or huge index is
+  // diagnosed instead of being truncated to int and used as a subscript.
+  int64_t idx = const_expr(&tok, tok->next);
+  if (idx < 0 || idx >= ty->array_len)
     error_tok(tok, "array designator index exceeds array bounds");
+  *begin = idx;
 
   if (equal(tok, "...")) {
-    *end = const_expr(&tok, tok->next);
-    if (*end >= ty->array_len)
+    idx = const_expr(&tok, tok->next);
+    if (idx < 0 || idx >= ty->array_len)
       error_tok(tok, "array designator index exceeds array bounds");
+    *end = idx;
     if (*end < *begin)
       error_tok(tok, "array designator range [%d, %d] is empty", *begin, *end);
   } else {
